@@ -122,11 +122,12 @@ _scope(
         (AX, AP, L("x")),
         (AX, AP, L("x", "en")),
         (I("http://é/ü"), AP, L("é", "fr")),
-        (AX, AP, L("x", None, D1)),
+        # (typed rdf:langString but without a language tag: an ordinary typed literal)
+        (AX, AP, L("x", None, "http://www.w3.org/1999/02/22-rdf-syntax-ns#langString")),
         (B("b"), AP, L("x", None, XSD_STRING)),
     ],
     [(8, 0, 1), (8, 1, 1), (8, 2, 2), (4000, 150, 32)],
-    note="empty/non-ASCII lexical forms, language tags, xsd:string, datatype == term IRI",
+    note="empty/non-ASCII lexical forms, language tags, xsd:string, rdf:langString without a tag",
 )
 
 
